@@ -713,6 +713,12 @@ def run(ctx):
             pool = by_first.get(first, [])
         if len(pool) > cap:
             pool = rng.sample(pool, cap)
+        if first is not None and name in reg_names:
+            # PDUs of OTHER services / the negative response: a class must refuse what does not belong to it
+            for k in sorted(by_first):
+                if k != first:
+                    typed = [x for x in by_first[k] if x[1].startswith("ok ")]
+                    pool = pool + typed[:6] + by_first[k][:2]
         fam = _family(C)
         param = None
         if name not in reg_names and fam == "InputOutputControlByIdentifierResponse":
@@ -747,6 +753,44 @@ def run(ctx):
             return e if e is not None else impl_cls([b])[0]
 
         found_c = {}
+        if name in reg_names:
+            # the model's own class-level parser (fromPdu, Model/UdsRespFields.lean; from_pdu_agrees_with_dynamic /
+            # from_pdu_wrong_class_rejects are proved about it) must give the expectation derived from decodeResp
+            fl = ctx.lean([f"frm {name} {hx(b)}" for b, _ in pool])
+            for (b, mv), f in zip(pool, fl):
+                f = "reject" if f.startswith("reject") else f
+                if f != expect(b, mv):
+                    ctx.disagree(f"from_pdu:model:{name}", f"model fromPdu {name} differs from the view derived from decodeResp on {hx(b)}",
+                                 {"pdu": hx(b), "class": name}, impl=expect(b, mv), model=f, spec_violated=False, site="Model/UdsRespFields.lean")
+                    break
+            if not neg:
+                # Cls.parse_static: 7F.. goes to NegativeResponse.from_pdu, the rest to Cls.from_pdu (model parseStatic)
+                own = [b for b, _ in pool]
+                ps = own[: ctx.pick(400, 4000)] + [b for b, _ in by_first.get(0x7F, [])[: ctx.pick(150, 1500)]] + [b""]
+                pl = ctx.lean([f"pst {name} {hx(b)}" for b in ps])
+
+                def impl_ps(bs, C=C):
+                    out = []
+                    for b in bs:
+                        try:
+                            out.append(view_obj(C.parse_static(b)))
+                        except Exception:  # noqa: BLE001
+                            out.append("reject")
+                    return out
+
+                found_p = {}
+                for b, iv, m in zip(ps, impl_ps(ps), pl):
+                    ctx.ev()
+                    n_cls += 1
+                    m = "reject" if m.startswith("reject") else m
+                    r = classify(b, iv, m)
+                    if r and (r[0] not in found_p or len(b) < len(found_p[r[0]][0])):
+                        found_p[r[0]] = (b, iv, m, r)
+                ctx.kind(*(["parse_static"] * len(ps)))
+                for cat, (b, iv, m, r) in found_p.items():
+                    ctx.disagree(f"parse_static:{name}:{cat}", f"{name}.parse_static({hx(b)}): {r[2]}",
+                                 {"pdu": hx(b), "class": name, "entry": "parse_static"}, impl=iv, model=m, spec_violated=r[1],
+                                 site=f"{name}.parse_static")
         for (b, mv), iv in zip(pool, impl_cls([b for b, _ in pool])):
             ctx.ev()
             n_cls += 1
@@ -1153,6 +1197,18 @@ def replay(ctx, case):
         print("impl   :", "reject / raw" if iv is None else " ".join(["ok", iv[0]] + [f"{k}={v}" for k, v in sorted(iv[1].items())]))
         print("fieldsAt (ISO position slices of the received bytes):", ml)
         r = _fields_classify(tab, iv, ml)
+        print("verdict:", "agree" if r is None else f"{r[0]} (spec_violated={r[1]}): {r[2]}")
+        return 0 if r is None else 1
+    if c.get("entry") == "parse_static":
+        try:
+            iv = view_obj(getattr(S, c["class"]).parse_static(b))
+        except Exception as e:  # noqa: BLE001
+            iv = "reject"
+            print("raised :", repr(e))
+        m = ctx.lean([f"pst {c['class']} {hx(b)}"])[0]
+        print(f"impl   : {c['class']}.parse_static ->", iv)
+        print("model  :", m)
+        r = classify(b, iv, "reject" if m.startswith("reject") else m)
         print("verdict:", "agree" if r is None else f"{r[0]} (spec_violated={r[1]}): {r[2]}")
         return 0 if r is None else 1
     if "class" in c:
